@@ -864,7 +864,9 @@ pub fn check_in_child(_env: &mut (), h: &History) -> Verdict {
         }
         if co.timed_out {
             let sig = format!("hang:{}", risky_labels(h));
-            if budget == WATCHDOG_S && !is_known_open(&sig) {
+            // (the replay entry point does not install the worker's known-findings list: read the files)
+            let known = is_known_open(&sig) || load_known("C28").iter().any(|k| k.status == "open" && k.signature == sig);
+            if budget == WATCHDOG_S && !known {
                 budget *= 10;
                 continue;
             }
@@ -941,12 +943,18 @@ impl Prop for C28 {
     fn run_shard(&self, cfg: &ShardCfg) -> ShardResult {
         let mut d = Driver::new(cfg, "C28");
         let n = cfg.share(cfg.tier.pick(1_000, 60_000));
+        let t0 = std::time::Instant::now();
         d.run("history", 0, n / 2, 100_000, history_strategy(false), &mk_env, &check);
+        let t1 = std::time::Instant::now();
         d.run("history", 1, n - n / 2, 100_000, history_strategy(true), &mk_env, &check);
+        let t2 = std::time::Instant::now();
         // queries that can hang (exception rethrown through a non-matching catch/3): fixed histories,
         // each in a child process under a watchdog
         let risky: Vec<History> = risky_histories().into_iter().enumerate().filter(|(i, _)| *i as u32 % cfg.nshards == cfg.shard).map(|(_, h)| h).collect();
         d.run_list("risky", risky, 1, &|| (), &check_in_child);
+        d.res.extra.insert("worker_seconds_unrestricted_histories".into(), json!((t1 - t0).as_secs()));
+        d.res.extra.insert("worker_seconds_clean_histories".into(), json!((t2 - t1).as_secs()));
+        d.res.extra.insert("worker_seconds_child_isolated_histories".into(), json!(t2.elapsed().as_secs()));
         d.finish()
     }
     fn replay(&self, kind: &str, case: &Value) -> Verdict {
